@@ -185,6 +185,40 @@ func (r *r1) decide() {
 	for _, k := range hk {
 		c.Add(r.hygiene[k])
 	}
+	// R11e: a closure handed to client code must not block on a lock the library holds around client calls
+	nre := 0
+	seenRe := map[string]bool{}
+	for _, ra := range r.reentrantAcqs {
+		at, held := r.clientLocks[ra.lock]
+		if !held {
+			continue
+		}
+		// only locks of the package that hands the closure out: for a lock of another package's type
+		// (the target CContainer of a RefCount) lock identity by field cannot tell the instances apart (A1)
+		if d := c.Prog.EnclosingDecl(ra.pos); d == nil || ra.lock.Pkg() == nil || !strings.HasPrefix(ra.chainPkg, ra.lock.Pkg().Path()) {
+			continue
+		}
+		construct := "closure@" + enclosingNameAt(c, ra.pos) + "/blocks-on:" + core.LockName(ra.lock)
+		if seenRe[construct] {
+			continue
+		}
+		seenRe[construct] = true
+		nre++
+		c.Add(&Obligation{Rule: "R11e", Construct: construct, Pos: c.Prog.Pos(ra.pos), Verdict: Violated, Witness: ra.wit,
+			Detail: sprintf("a closure the library hands to client code acquires %s with a blocking Lock, and the library calls client functions with %s held (e.g. at %s): a client that invokes the closure from inside such a callback deadlocks on itself; reached via %s",
+				core.LockName(ra.lock), core.LockName(ra.lock), c.Prog.Pos(at), ra.chain)})
+	}
+	if len(r.clientLocks) > 0 {
+		var ls []string
+		for l := range r.clientLocks {
+			ls = append(ls, core.LockName(l))
+		}
+		sort.Strings(ls)
+		if nre == 0 {
+			c.Add(&Obligation{Rule: "R11e", Construct: "all/handed-out-closures-do-not-block-on-callback-locks", Pos: "-", Verdict: Discharged,
+				Detail: sprintf("locks held around calls of client function values: %v; %d blocking acquisitions in closures handed to client code, none of one of these locks (TryLock or a new goroutine is used instead)", ls, len(r.reentrantAcqs))})
+		}
+	}
 	c.Add(&Obligation{Rule: "R11a", Construct: "all/lock-release-pairing", Pos: "-", Verdict: Discharged,
 		Detail: sprintf("%d calling contexts walked; every Lock/RLock/TryLock is released on every non-panicking path and no Unlock happens on a path that does not hold the lock, except as listed", r.nContexts)})
 	// R11b: lock order
@@ -497,4 +531,11 @@ func (r *r1) publicationPass(cands []*types.Var) map[*types.Var]*pubResult {
 		}
 	}
 	return out
+}
+
+func enclosingNameAt(c *Ctx, pos token.Pos) string {
+	if d := c.Prog.EnclosingDecl(pos); d != nil {
+		return core.FuncName(d.Obj)
+	}
+	return "?"
 }
